@@ -174,6 +174,12 @@ pub fn par_map<T: Sync, R: Send, F: Fn(usize, &T) -> R + Sync>(items: &[T], thre
     out.into_iter().map(|x| x.expect("par_map slot")).collect()
 }
 
+/// Deviation bound of a check: `default` unless VERIF_BOUND overrides it (for experiments; the bound
+/// actually used is always written into the evidence).
+pub fn bound_or(default: usize) -> usize {
+    std::env::var("VERIF_BOUND").ok().and_then(|s| s.parse().ok()).unwrap_or(default)
+}
+
 pub fn n_threads() -> usize {
     std::env::var("VERIF_THREADS")
         .ok()
